@@ -103,13 +103,18 @@ type vWDelegate struct {
 	states [][]byte
 	local  []byte
 	meta   []byte
+	gate   chan struct{} // when set: the application is busy until the gate opens
 }
 
 func (d *vWDelegate) NodeMeta(limit int) []byte { return d.meta }
 func (d *vWDelegate) NotifyMsg(b []byte) {
 	d.mu.Lock()
 	d.msgs = append(d.msgs, append([]byte(nil), b...))
+	gate := d.gate
 	d.mu.Unlock()
+	if gate != nil {
+		<-gate
+	}
 }
 func (d *vWDelegate) GetBroadcasts(overhead, limit int) [][]byte { return nil }
 func (d *vWDelegate) LocalState(join bool) []byte                { return d.local }
